@@ -455,7 +455,7 @@ macro_rules! compare_op{
                 (Value::Integer(a),Value::Integer(b)) => Ok((a $op b).into()),
                 (Value::String(a),Value::String(b)) => Ok((a $op b).into()),
                 (Value::Boolean(a),Value::Boolean(b)) => Ok((a $op b).into()),
-                _ => panic!("not implemented")
+                (a, b) => Err(err_msg(format!("can not compare {:?} with {:?}", a, b))),
             }
         });
     }
